@@ -133,6 +133,25 @@ Definition obj_depth (o : obj) : nat :=
   | OArr es => depth_list es
   end.
 
+(* renaming of the addresses a value refers to through exported fields *)
+Fixpoint map_addr (f : addr -> addr) (v : hv) : hv :=
+  match v with
+  | HPtr (Some a) => HPtr (Some (f a))
+  | HMap (Some a) => HMap (Some (f a))
+  | HSlice (Some s) => HSlice (Some (mk_sref (f (s_arr s)) (s_off s) (s_len s) (s_cap s)))
+  | HIface t x => HIface t (map_addr f x)
+  | HStruct l => HStruct (map (map_addr f) l)
+  | HArray l => HArray (map (map_addr f) l)
+  | _ => v
+  end.
+
+Definition map_addr_obj (f : addr -> addr) (o : obj) : obj :=
+  match o with
+  | OCell v => OCell (map_addr f v)
+  | OMap kvs => OMap (map (fun kv => (map_addr f (fst kv), map_addr f (snd kv))) kvs)
+  | OArr es => OArr (map (map_addr f) es)
+  end.
+
 (* ---- boolean equality (used by the correspondence checks) ---- *)
 Definition oaddr_eqb (a b : option addr) : bool :=
   match a, b with Some x, Some y => x =? y | None, None => true | _, _ => false end.
